@@ -1,5 +1,8 @@
 """C08 - unregistered users are indistinguishable from registered ones."""
 from checks.common import *
+import hashlib, hmac as _hmac
+
+HASHES = {"R255": hashlib.sha512, "P256": hashlib.sha256, "P384": hashlib.sha384, "P521": hashlib.sha512}
 
 LEVEL = "proof"
 RULE = ("login attempts without a password file, all suites and parameter shapes, repeated against one identifier and interleaved "
@@ -41,6 +44,29 @@ def fake(ctx, idu, ids, context, cred):
                 ctx.expect(resps[i][a:b] != resps[j][a:b], "fields [%d:%d] differ between attempts %d and %d" % (a, b, i, j))
         for (a, b) in fb[1:]:
             ctx.expect(resps[i][a:b] != real[a:b], "fields [%d:%d] differ from the real response" % (a, b))
+    # the pending state of a fake session is as fresh as a real one: three Nh-byte fields, none constant, none shared
+    # between attempts, and not completable from public data (e.g. an all-zero state would accept HMAC(0,0))
+    for i, s_ in enumerate(states):
+        ctx.expect(len(s_) == 3 * L.Nh and len(s_) == len(real_state), "fake session state has the layout of a real one")
+        for a in range(3):
+            fld = s_[a * L.Nh:(a + 1) * L.Nh]
+            ctx.expect(len(set(fld)) > 4, "state field %d of a fake session is not a constant" % a)
+            for j in range(i + 1, len(states)):
+                ctx.expect(fld != states[j][a * L.Nh:(a + 1) * L.Nh], "state field %d differs between fake attempts" % a)
+        hf = HASHES[L.oprf]
+        for key in (bytes(L.Nh), b"\xff" * L.Nh):
+            for msg in (bytes(L.Nh), b"", key):
+                cand = _hmac.new(key, msg, hf).digest()
+                r0 = ctx.call("srv_login_finish", s_, cand)
+                ctx.expect(not r0.ok, "a finalization computable from public constants does not complete a fake session")
+    # the stand-in client key of a setup is secret and per setup: not derivable from public constants
+    fake_sk = f.setup[L.Nh + L.Nsk:]
+    other = honest_flow(ctx, b"x", b"y", registration_only=True)
+    ctx.expect(other.setup[L.Nh + L.Nsk:] != fake_sk, "two setups have different fake keys")
+    for seed in (bytes(L.Nsk), b"\xff" * L.Nsk, f.setup[:L.Nsk], f.setup[:L.Nh][:L.Nsk]):
+        if len(seed) == L.Nsk:
+            d = ctx.call("ke_derive", seed)
+            ctx.expect(not (d.ok and d.b(0) == fake_sk), "the fake key is not derived from a public constant or from the OPRF seed")
     # a wrong-password client against the real record, for the error class
     w = ctx.call("login_finish", st, b"pw-wrong", real, context, idu, ids, "~")
     for m, s_ in zip(resps, states):
